@@ -448,6 +448,11 @@ def rule_unq(S):
     for q in ('yakushima::storage::list_storages', 'yakushima::destroy'):
         g = facts.one(q)
         scans = [n for n in g.all_nodes() if is_call(n, cq='yakushima::scan')]
+        if not scans and q == 'yakushima::destroy' and \
+                any(is_call(n, cq='yakushima::storage::list_storages') for n in g.all_nodes()):
+            # destroy() may enumerate through list_storages, which is decided above
+            S.ob('R-UNQ', q, 'enumerates the whole catalogue', True, 'through storage::list_storages()', loc=g.loc)
+            continue
         S.require('R-UNQ', 'scan calls in ' + q, len(scans), 1)
         for n in scans:
             a = call_args(g, n)
